@@ -164,6 +164,10 @@ pub fn exec(sc: &Scenario, st: &mut Stats) -> Option<Violation> {
                         let _ = node.save_size();
                         // the human-readable path must return too (Err on non-finite state is fine)
                         let _ = node.save_json().ok().and_then(|t| node.load_json(&t).ok());
+                        // both restore paths must return: from a byte slice and from an io::Read
+                        if let Ok(b) = &bytes {
+                            let _ = node.load_reader(b);
+                        }
                         bytes.ok().and_then(|b| node.load(&b).ok())
                     });
                     st.situation(kind, &spec.params, phase(*count, window, *was_reset), 12, last_fault, spec.mode, 0);
@@ -410,6 +414,61 @@ fn grid_mega(idx: u64, specs: &[NodeSpec]) -> Scenario {
     Scenario { property: PROP.into(), stage: "grid-mega".into(), nodes: vec![spec], ops, workers: 0 }
 }
 
+/// huge-periods: the windowless EMA family with periods around 2^31 .. 2^62
+fn huge_scenario(idx: u64, specs: &[NodeSpec]) -> Scenario {
+    let spec = specs[idx as usize];
+    let cyc = value_cycle();
+    let mut ops = vec![];
+    for j in 0..24 {
+        if j % 4 == 3 {
+            let (x, f) = cyc[(idx as usize * 7 + j) % cyc.len()];
+            ops.push(Op::Feed { n: 0, x, f });
+        } else {
+            ops.push(Op::Feed { n: 0, x: gen::plain_tick(j), f: Fault::Clean });
+        }
+        match j {
+            5 => ops.push(Op::Format { n: 0 }),
+            9 => ops.push(Op::Save { n: 0 }),
+            13 => ops.push(Op::Fork { src: 0, dst: 1, into: false }),
+            17 => ops.push(Op::Reset { n: 0 }),
+            21 => ops.push(Op::RoundTrip { n: 0, times: 1, json: false }),
+            _ => {}
+        }
+    }
+    Scenario { property: PROP.into(), stage: "huge-periods".into(), nodes: vec![spec], ops, workers: 0 }
+}
+
+/// int-extremes: whole-number inputs at the edge of exact integer arithmetic (2^53, 2^53-1, -2^53, 2^62, 2^63)
+/// on windows of 1024 .. 4096 slots: an 'exact integer' fast path overflows i64 there
+fn int_specs() -> Vec<NodeSpec> {
+    let mut v = vec![];
+    for &k in ALL_KINDS.iter() {
+        if k.n_periods() == 0 {
+            continue;
+        }
+        for p in [1024usize, 1025, 2048, 4096] {
+            let mode = if k.has_scalar() { Mode::Scalar } else { Mode::Bar };
+            v.push(NodeSpec { kind: k, params: Params::new(p, 2, 2, 2.0), mode, dflt: false });
+        }
+    }
+    v
+}
+
+fn int_scenario(idx: u64, specs: &[NodeSpec]) -> Scenario {
+    let spec = specs[(idx / 5) as usize];
+    let big = [9007199254740992.0f64, 9007199254740991.0, -9007199254740992.0, 4611686018427387904.0, 9223372036854775808.0][(idx % 5) as usize];
+    let n = spec.params.p1;
+    let mut ops = vec![];
+    for j in 0..(n + n / 2 + 3) {
+        let x = if idx % 5 == 1 && j % 2 == 1 { big + 1.0 } else { big };
+        ops.push(Op::Feed { n: 0, x: Input { o: x, h: x, l: x, c: x, v: 1024.0 }, f: Fault::Huge });
+    }
+    ops.push(Op::Format { n: 0 });
+    ops.push(Op::Reset { n: 0 });
+    ops.push(Op::Feed { n: 0, x: Input::scalar(3.0), f: Fault::Clean });
+    Scenario { property: PROP.into(), stage: "int-extremes".into(), nodes: vec![spec], ops, workers: 0 }
+}
+
 /// soak (thorough only): every kind, smallest windows, more than 2^32 calls on one instance
 fn soak_scenario(idx: u64) -> Scenario {
     let kind = ALL_KINDS[(idx % 22) as usize];
@@ -533,7 +592,17 @@ pub fn run(tier: Tier) -> i32 {
     let mspecs = mega_specs(mega_periods);
     let clean_so_far = ga.found.is_none() && gb.as_ref().map_or(true, |g| g.found.is_none());
     let gm = if clean_so_far && !gen::skip_fixed() { Some(run_stage("grid-mega", mspecs.len() as u64, wall_cap, &mut total, &|i| grid_mega(i, &mspecs), &exec, &[0], 8)) } else { None };
-    let soak = if clean_so_far && gm.as_ref().map_or(true, |g| g.found.is_none()) && tier == Tier::Thorough && !gen::skip_fixed() {
+    let hspecs = gen::huge_specs();
+    let ispecs = int_specs();
+    let mut extra: Vec<crate::driver::StageOut> = vec![];
+    if clean_so_far && gm.as_ref().map_or(true, |g| g.found.is_none()) && !gen::skip_fixed() {
+        extra.push(run_stage("huge-periods", hspecs.len() as u64, wall_cap, &mut total, &|i| huge_scenario(i, &hspecs), &exec, &[], 5));
+        if extra[0].found.is_none() {
+            extra.push(run_stage("int-extremes", ispecs.len() as u64 * 5, wall_cap, &mut total, &|i| int_scenario(i, &ispecs), &exec, &[], 3));
+        }
+    }
+    let extra_clean = extra.iter().all(|e| e.found.is_none());
+    let soak = if clean_so_far && extra_clean && gm.as_ref().map_or(true, |g| g.found.is_none()) && tier == Tier::Thorough && !gen::skip_fixed() {
         // 22 runs of > 2^32 calls each (about half a minute per run and core); the hang watchdog is told
         std::env::set_var("VERIF_HANG_LIMIT", "900");
         let r = run_stage("soak", 22, Duration::from_secs(3000), &mut total, &soak_scenario, &exec, &[0], 5);
@@ -542,7 +611,7 @@ pub fn run(tier: Tier) -> i32 {
     } else {
         None
     };
-    let seeded = if clean_so_far && gm.as_ref().map_or(true, |g| g.found.is_none()) && soak.as_ref().map_or(true, |g| g.found.is_none()) {
+    let seeded = if clean_so_far && extra_clean && gm.as_ref().map_or(true, |g| g.found.is_none()) && soak.as_ref().map_or(true, |g| g.found.is_none()) {
         Some(run_stage("seeded", seeded_runs, wall_cap, &mut total, &|i| generate(&mut Rng::new(run_seed(c.seed, PROP, "seeded", i)), tier), &exec, &[0], 24))
     } else {
         None
@@ -553,6 +622,9 @@ pub fn run(tier: Tier) -> i32 {
     }
     if let Some(s) = &gm {
         stages.push(s);
+    }
+    for e in &extra {
+        stages.push(e);
     }
     if let Some(s) = &soak {
         stages.push(s);
@@ -568,7 +640,7 @@ pub fn run(tier: Tier) -> i32 {
         &total,
         report::EvidenceMeta {
             level: "fault_enumeration",
-            rule: "Enumerated part (seed independent): grid-a = every indicator x every period 1..=64 (period-tuple variants for multi-period kinds) x every input mode x multipliers {2,0,-2,1e300,NaN,inf} x 8 offsets, each a run of 3*sum(periods)+19 calls whose every third input cycles through every fault value class (as a whole tick and as single-field hits), with reset/clone/Display/Debug/save+load at a fixed stride; grid-b = every cursor state s in 0..3*sum+3 x every fault value for periods up to the stated bound: s clean ticks, the fault value, then Display/Debug/save/clone/round-trip/reset on the poisoned state and further ticks. grid-mega = every O(1)-per-call indicator with windows of 65535, 65536, 65537, 131073 (thorough: eight sizes up to 200000) slots, 3*sum+3 calls, then Display/save/clone/reset and a refill; soak (thorough only) = every indicator, smallest windows, 2^32+4103 calls on one instance. Seeded part: swarm runs with periods log-uniform up to 4096, random fault subsets at 0.5%..60%, reset storms, forks, up to 2000 (quick) / 20000 (thorough) ticks. Built with overflow-checks and debug-assertions. distinct_nontrivial counts distinct (indicator, period bucket, window phase, op kind, fault kind of the delivered tick, input mode) tuples in which a call was made and returned.",
+            rule: "Enumerated part (seed independent): grid-a = every indicator x every period 1..=64 (period-tuple variants for multi-period kinds) x every input mode x multipliers {2,0,-2,1e300,NaN,inf} x 8 offsets, each a run of 3*sum(periods)+19 calls whose every third input cycles through every fault value class (as a whole tick and as single-field hits), with reset/clone/Display/Debug/save+load at a fixed stride; grid-b = every cursor state s in 0..3*sum+3 x every fault value for periods up to the stated bound: s clean ticks, the fault value, then Display/Debug/save/clone/round-trip/reset on the poisoned state and further ticks. huge-periods = the windowless EMA family with periods around 2^31..2^62; int-extremes = every windowed indicator with 1024..4096 slots fed whole numbers at the edge of exact integer arithmetic (2^53, 2^53-1, -2^53, 2^62, 2^63); grid-mega = every O(1)-per-call indicator with windows of 65535, 65536, 65537, 131073 (thorough: eight sizes up to 200000) slots, 3*sum+3 calls, then Display/save/clone/reset and a refill; soak (thorough only) = every indicator, smallest windows, 2^32+4103 calls on one instance. Seeded part: swarm runs with periods log-uniform up to 4096, random fault subsets at 0.5%..60%, reset storms, forks, up to 2000 (quick) / 20000 (thorough) ticks. Built with overflow-checks and debug-assertions. distinct_nontrivial counts distinct (indicator, period bucket, window phase, op kind, fault kind of the delivered tick, input mode) tuples in which a call was made and returned.",
             assumptions: vec![
                 "outputs are not judged; only that every call returns without panic (panic hook + catch_unwind) and that no run stalls for 60 s".into(),
                 "harness profile: opt-level 2, overflow-checks = true, debug-assertions = true for ta and the harness".into(),
